@@ -106,6 +106,12 @@ def _site_statements(sp):
         # chained expressions: two uses that begin at the same source position
         ("tonl-chain-func-method", "%sMockH().Reset()" % q), ("tonl-chain-lit-method", "_ = %s{}.Fire()" % H), ("tonl-chain-plain", "_ = %sGetH().Fire()" % q),
         ("pkgo-chain-func-method", "_ = %sInternalS().Open()" % q), ("pkgo-chain-lit-method", "_ = %s{}.Look()" % S),
+        ("imm-promoted-assign", "t.Rev = 1"), ("imm-promoted-inc", "t.Rev++"), ("imm-promoted-compound", "tv.Rev += 2"), ("imm-promoted-index", "t.Tags[0] = 1"),
+        ("imm-promoted-explicit", "t.Meta.Rev = 3"), ("imm-embedding-outer", "ob# := struct{ %s }{tv}; @@ob#.F = 4" % spl0(sp, "T")),
+        # a selector broken after the dot: the expression starts on the first line, the selected name stands on the second
+        # (without a qualifier - own package, dot import - there is no dot to break after: the plain call, same site id)
+        ("pkgo-func-broken-dot", ("_ = %s\n\t@2@Internal()" % q) if q else "_ = Internal()"), ("pkgo-method-broken-dot", "_ = s.\n\t@2@Open()"),
+        ("tonl-func-broken-dot", ("_ = %s\n\t@2@Mock()" % q) if q else "_ = Mock()"),
         ("pkgo-promoted-method", "bx# := struct{ *%s }{s}; @@_ = bx#.Open()" % spl0(sp, "Secret")),
         ("pkgo-promoted-method-value", "by# := struct{ *%s }{s}; @@gy# := by#.Open; _ = gy#" % spl0(sp, "Secret")),
         ("pkgo-func", "_ = %sInternal()" % q), ("pkgo-func-bare", "_ = %sBareOnly()" % q), ("pkgo-func-path", "_ = %sByPath()" % q),
@@ -150,7 +156,8 @@ def gen_decl_package(W, rng, full=False):
     W.add_file("d", "types.go", [])
     W.add_file("d", "funcs.go", [])
     W.add("d", "types.go", Decl("T", ["type T struct {", "\tF   int", "\tXs  []int", "\tMp  map[string]int", "\t// Mut may change.", "\t// @mutable",
-                                      "\tMut int", "\t// @mutable", "\tMutXs []int", "}"], doc=tdoc))
+                                      "\tMut int", "\t// @mutable", "\tMutXs []int", "\tMeta", "}"], doc=tdoc))
+    W.add("d", "types.go", Decl("Meta", ["type Meta struct {", "\tRev  int", "\tTags []int", "}"]))
     W.add("d", "types.go", Decl("U", ["type U struct{ G int }"], doc=["// U is ordinary."]))
     W.add("d", "types.go", Decl("H", ["type H struct{ N int }"], doc=pick([["// H helps tests.", "// @testonly"], ["// @testonly"], ["// H is ordinary now."]])))
     W.add("d", "types.go", Decl("Secret", ["type Secret struct{ V int }"],
